@@ -216,6 +216,27 @@ class Setup:
         return (gen.fingerprint(sn.cm.coinstate), tuple(t.hash() for t in sn.pool()), sn.table_counts(),
                 len(sn.store.write_buffer), sn.cm.coinstate is not None)
 
+    def only_valid_transactions_admitted(self, before, after):
+        """True when the only change is that the pool grew by transactions the reference finds valid at the head and
+        compatible with the pool (then self.pooled is updated to the new baseline)"""
+        if before[0] != after[0] or before[2:] != after[2:]:
+            return False
+        sn, world = self.sn, self.world
+        old_ids = set(before[1])
+        pool = sn.pool()
+        new = [t for t in pool if t.hash() not in old_ids]
+        if not new or len(pool) != len(before[1]) + len(new) or [t.hash() for t in pool[:len(before[1])]] != list(before[1]):
+            return False
+        led = world.ledger(sn.cm.coinstate.current_chain_hash)
+        used = {r for t in self.pooled for r in t.refs()}
+        for t in new:
+            rt = bridge.real_to_rtx(t)
+            if ref.tx_codes_by_itself(rt) | ref.tx_codes_in_ledger(rt, led) or set(rt.refs()) & used:
+                return False
+            used.update(rt.refs())
+        self.pooled += [bridge.real_to_rtx(t) for t in new]
+        return True
+
     def contains_bulk_block(self, data):
         try:
             payloads, _r, _rest = ref.parse_frames(data)
@@ -313,6 +334,10 @@ class Setup:
                     for t in self.pooled:        # the unvalidated block may have evicted pooled transactions
                         if t.id() not in have:
                             sn.cm.add_transaction_to_pool(bridge.rtx_to_real(t))
+                elif greeted and self.only_valid_transactions_admitted(before, after):
+                    # [domain] the corrupted bytes happen to BE a valid transaction (e.g. the single bit that made the base
+                    # frame invalid was flipped back): admitting it is what the node should do
+                    c["out_of_domain_valid_transaction"] = c.get("out_of_domain_valid_transaction", 0) + 1
                 elif kind == "valid-content-before-greeting":
                     what = [n2 for n2, (x, y) in zip(("chain state", "pool", "store tables", "write buffer", "state"), zip(before, after)) if x != y]
                     mon.v("content-accepted-before-greeting", "a %s sent before the greeting changed the node's %s" % (name, what), w)
@@ -371,7 +396,9 @@ def replay(mon, w):
     esc = sn.escaped()
     if esc:
         mon.v("exception-escaped-event-loop:" + esc[0].split(":")[0], esc[0][:300], w)
-    if st.fingerprint() != before and not st.contains_bulk_block(bytes.fromhex(w["stream"])):
+    after = st.fingerprint()
+    if after != before and not st.contains_bulk_block(bytes.fromhex(w["stream"])) and not (
+            w.get("greeted", True) and st.only_valid_transactions_admitted(before, after)):
         mon.v("hostile-input-changed:state", "replayed stream changed the node's state", w)
     st.probe(w)
     sn.close()
